@@ -1462,7 +1462,7 @@ def run(ck):
                         'queries, every component / scope call; non-trivial = at least one mapping. search: public API on corpus molecules.')
     import time
     t0 = time.time()
-    proved = common.standard_proof_steps(ck, translators=['elements', 'isoclosure'])
+    proved = common.standard_proof_steps(ck, translators=['elements', 'isoclosure', 'isoguard'])
     ck.extra['phase_s'] = {'proof': round(time.time() - t0, 1)}
     rng = random.Random(ck.seed * 7919 + 9)
     try:
